@@ -76,7 +76,7 @@ Proof.
     | |- context[match ?x with _ => _ end] => destruct x; cbn [st finish_failed]
     | |- context[if ?x then _ else _] => destruct x; cbn [st finish_failed]
     end; reflexivity.
-  - unfold write, write_gate. cbn [andb]. rewrite orb_false_r. destruct (p_cas p =? d_cas (st s)) eqn:Ec; [|cbn; congruence].
+  - unfold write, write_gate, tomb_quirk. cbn [andb]. rewrite orb_false_r. destruct (p_cas p =? d_cas (st s)) eqn:Ec; [|cbn; congruence].
     destruct (w_fail_write (w_op w)); cbn [finish_failed st]; [congruence|]. intros _.
     exists i, w, p. repeat split; auto; [apply N.eqb_eq, Ec|]. cbn [ws]. eapply nth_error_set_nth_eq; eauto.
 Qed.
